@@ -362,6 +362,50 @@ def text_of(chunks):
     return ''.join(t for _, t in chunks)
 
 
+_GAPS = ['\n', '\t', '  ', ' /* c */ ', ' --\n', ' -- c ?\n', ' /* ? */ ', '\n--\n', ' -- it\'s\n', '\n\n', ' /**/ ', '\r\n']
+
+
+def laid_out(marked, layout):
+    """The same token sequence written differently: single spaces OUTSIDE string literals are replaced, here and there, by
+    other things that are white space to SQL -- line breaks, tabs, block comments, line comments (empty, with text, with a
+    `?` or a quote in them).  A pure function of (text, layout number); layout 0 is the text as generated.  The model's
+    placeholder count stays the generator's own (markers in the text); comments only ever contain decoys."""
+    if not layout:
+        return marked
+    rng = random.Random('C12/layout/%d' % layout)
+    dens = (0.08, 0.2, 0.45)[layout % 3]
+    out = []
+    in_str = in_line = in_block = False
+    for i, ch in enumerate(marked):
+        if in_line:
+            if ch == '\n':
+                in_line = False
+        elif in_block:
+            if ch == '/' and i and marked[i - 1] == '*':
+                in_block = False
+        elif ch == "'":
+            in_str = not in_str          # ('' inside a literal toggles twice: no net change)
+        elif not in_str and ch == '-' and marked[i + 1:i + 2] == '-':
+            in_line = True               # a comment the generator wrote itself: left alone up to its line break
+        elif not in_str and ch == '/' and marked[i + 1:i + 2] == '*':
+            in_block = True
+        if ch == ' ' and not (in_str or in_line or in_block) and rng.random() < dens:
+            g = _GAPS[rng.randrange(len(_GAPS))]
+            if ('-' in g or '*' in g) and marked[i - 1:i].isalpha() and marked[i + 1:i + 2].isalpha():
+                # between two words only plain white space: the grammars lex GROUP BY, IS NOT, LEFT JOIN ... as ONE token
+                # with white space inside, and reject a comment there (not this property's business)
+                g = ('\n', '\t', '  ', '\r\n')[rng.randrange(4)]
+            out.append(g)
+        else:
+            out.append(ch)
+    return ''.join(out)
+
+
+def stmt_text(st):
+    """Marked text of a statement dict in its layout."""
+    return laid_out(text_of(st['chunks']), st.get('layout', 0))
+
+
 COLLIDING = [(1, '1'), (1.0, '1.0'), (True, 'true'), (0, '0'), (0.0, '0.0'), (False, 'false'), (2, '2'), (2.0, '2.0'), ('1', "'1'"), (None, 'null')]
 
 
@@ -515,7 +559,10 @@ def gen_scenario(seed):
             d = _weighted_d(rng)
             r = rng.random()
             tag = rng.randrange(8) if r < 0.6 else (100 + rng.randrange(10) if r < 0.8 else (50 + rng.randrange(8) if d == 'mindsdb' else rng.randrange(8)))
-            stmts.append({'chunks': ch, 'cat': cat, 'tag': tag, 'd': d})
+            st_ = {'chunks': ch, 'cat': cat, 'tag': tag, 'd': d}
+            if rng.random() < 0.25:
+                st_['layout'] = rng.randrange(1, 1 << 20)
+            stmts.append(st_)
         # one planner (one catalog) per session: use the largest catalog any of its statements needs
         rank = {'one': 0, 'two': 1, 'model': 2}
         top = max((st['cat'] for st in stmts), key=lambda c: rank[c])
@@ -581,7 +628,7 @@ class Session:
 
     # -- model side
     def n(self):
-        return text_of(self.cur['chunks']).count(MARK)
+        return stmt_text(self.cur).count(MARK)
 
     def values(self):
         return [value_for(k, self.cur['tag'], self.cur.get('d', 'mindsdb')) for k in range(self.n())]
@@ -603,7 +650,7 @@ class Session:
             from mindsdb_sql import parse_sql
             from mindsdb_sql.planner.query_planner import QueryPlanner
             self.cur = self.sdef['stmts'][op[1]]
-            sql = text_of(self.cur['chunks']).replace(MARK, '?')
+            sql = stmt_text(self.cur).replace(MARK, '?')
             self.steps, self.exec_err, self.gen = [], None, None
             try:
                 if self.sdef.get('cache_templates') or k == 'Pc':
@@ -885,7 +932,7 @@ class Session:
         from mindsdb_sql import parse_sql
         from mindsdb_sql.planner import plan_query
         vals = vals or self.values()
-        inline = subst(text_of(self.cur['chunks']), [lit for _, lit in vals])
+        inline = subst(stmt_text(self.cur), [lit for _, lit in vals])
         try:
             ref_plan = plan_query(parse_sql(inline, dialect=self.cur.get('d', 'mindsdb')), **O.plan_kwargs(copy.deepcopy(CATALOGS[self.cur['cat']])))
             ref_steps, ref_err = ref_plan.steps, None
@@ -916,12 +963,15 @@ class Session:
 
 # ---------------------------------------------------------------------------------------------
 def sanity(spec):
-    """Harness sanity: the generator's placeholder count must agree with the lexer's PARAMETER count for
-    statements the parser accepts (a disagreement means the *generator* is wrong, e.g. a decoy that is not one)."""
+    """The generator's placeholder count (its own markers) against the lexer's PARAMETER count, per statement.  The two
+    agree on the pinned tree for every layout (checked by every run); a disagreement is reported as a `param_count` violation:
+    a lexer that loses or invents a placeholder (a comment rule that eats the next line, say) breaks the property before any
+    planner code runs.  -> list of (session index, statement dict, detail)."""
     from mindsdb_sql import get_lexer_parser
-    for s in spec['sessions']:
+    out = []
+    for si, s in enumerate(spec['sessions']):
         for st in s['stmts']:
-            marked = text_of(st['chunks'])
+            marked = stmt_text(st)
             sql = marked.replace(MARK, '?')
             lexer, _ = get_lexer_parser(st.get('d', 'mindsdb'))
             try:
@@ -929,15 +979,13 @@ def sanity(spec):
             except Exception:
                 continue
             if n != marked.count(MARK):
-                return 'generator/lexer disagree on placeholders in %r: %d vs %d' % (sql, marked.count(MARK), n)
-    return None
+                out.append((si, st, 'the %s lexer yields %d PARAMETER tokens for a text with %d placeholders: %r' % (st.get('d', 'mindsdb'), n, marked.count(MARK), sql)))
+    return out
 
 
 def run_child(spec):
     t0 = time.time()
-    err = sanity(spec)
-    if err:
-        return {'harness_error': err}
+    lex_viol = [{'kind': 'param_count', 'session': si_, 'stmt': st_, 'detail': d_, 'pc': -1} for si_, st_, d_ in sanity(spec)]
     shared = copy.deepcopy(CATALOGS) if spec.get('share_catalog') else None
 
     def cat_getter():
@@ -1001,7 +1049,7 @@ def run_child(spec):
             if not more:
                 sessions[sid].finish()
                 alive.remove(sid)
-    viol = []
+    viol = list(lex_viol)
     obs = collections.Counter()
     for s in sessions:
         viol.extend(s.viol)
@@ -1099,6 +1147,15 @@ def minimise(spec, res, v, pool, max_execs=200, wall_s=60):
             if ok(cand):
                 cur = cand
             j -= 1
+    # 2b. the layout of every statement (back to the text as generated)
+    for si in range(len(cur['sessions'])):
+        for ti in range(len(cur['sessions'][si]['stmts'])):
+            if cur['sessions'][si]['stmts'][ti].get('layout'):
+                cand = copy.deepcopy(cur)
+                cand['sessions'][si]['stmts'][ti].pop('layout')
+                cand['order'] = None
+                if ok(cand):
+                    cur = cand
     # 3. optional chunks of every statement
     for si in range(len(cur['sessions'])):
         for ti in range(len(cur['sessions'][si]['stmts'])):
@@ -1223,7 +1280,7 @@ def main(tier='quick', seed=0, repo=None):
                 if not vv:
                     raise HarnessError('C12 violation (seed %s, %s) did not reproduce after minimisation' % (spec['seed'], kind))
                 v2 = vv[0]
-                stmt = text_of(v2['stmt']['chunks']).replace(MARK, '?')
+                stmt = stmt_text(v2['stmt']).replace(MARK, '?')
                 if (kind, stmt) in reported:
                     continue
                 if known_match(known, v2) is not None:
@@ -1281,7 +1338,7 @@ def replay(path, repo=None):
     for lg in r.get('logs') or []:
         print('   session log: %s' % lg)
     if vv:
-        print('  %s: %s\n  %s' % (vv[0]['kind'], text_of(vv[0]['stmt']['chunks']).replace(MARK, '?'), vv[0]['detail'][:1500]))
+        print('  %s: %s\n  %s' % (vv[0]['kind'], stmt_text(vv[0]['stmt']).replace(MARK, '?'), vv[0]['detail'][:1500]))
         print('  same detail as recorded: %s' % (vv[0]['detail'] == data['detail']))
         report.violation_line(PROP, path)
         return 1
